@@ -597,3 +597,74 @@ def gen_trap(rng, long_rate=0.02):
         if accept(rng, prog, direct, long_rate):
             return {'k': 'flat', 'prog': prog, 'direct': direct}
     return {'k': 'flat', 'prog': [['L', 10], ['RES', 'S']], 'direct': None}
+
+
+# ---------------------------------------------------------------------------------------------------------
+# FOR with a single-precision counter
+
+import struct
+
+
+def f32(x):
+    return struct.unpack('<f', struct.pack('<f', x))[0]
+
+
+SINGLE_POOL = [0.0, 1.0, 2.0, 3.0, 10.0, 0.1, 0.2, 0.25, 0.5, 0.7, 1.5, 1e-8, 1e-3, 0.3, 100.0, 255.0,
+               16777214.0, 16777215.0, 16777216.0, 16777218.0, 16777220.0, 33554432.0, 8388608.0,
+               1e38, 1.7e38, 1.70141173e38, 8.5e37, 1e37, 3e-39, 1e-38, 32767.0, 32768.0, 65536.0]
+
+
+def single_passes(a, b, s, cap):
+    """approximate number of passes in float32 arithmetic; None = the counter is stuck / more than cap"""
+    c = f32(a)
+    n = 0
+    up = s >= 0
+    if (c > b) if up else (c < b):
+        return 0
+    while n <= cap:
+        n += 1
+        try:
+            c2 = f32(c + s)
+        except OverflowError:
+            return n
+        if c2 in (float('inf'), float('-inf')):
+            return n
+        if (c2 > b) if up else (c2 < b):
+            return n
+        if c2 == c:
+            return None
+        c = c2
+    return None
+
+
+def gen_single(rng):
+    for _ in range(200):
+        r = rng.random()
+        if r < 0.35:
+            a = rng.choice(SINGLE_POOL) * rng.choice([1, 1, 1, -1])
+            s = rng.choice(SINGLE_POOL) * rng.choice([1, 1, -1])
+            trips = rng.choice([0, 1, 2, 3, 5, 10, 20])
+            b = a + s * (trips - rng.random())
+        elif r < 0.6:
+            a, b, s = [rng.choice(SINGLE_POOL) * rng.choice([1, 1, -1]) for _ in range(3)]
+        elif r < 0.8:
+            # random mantissas, moderate magnitudes
+            a = f32(rng.uniform(-100, 100))
+            s = f32(rng.uniform(-3, 3))
+            b = a + s * rng.uniform(-2, 30)
+        else:
+            # near 2^24 and near the largest number
+            base = rng.choice([16777216.0, 16777216.0, 1.7e38, -1.7e38, 8388608.0])
+            a = f32(base * rng.choice([1, 0.99999994, 0.9999999, 0.5]))
+            s = f32(rng.choice([1.0, 2.0, 0.5, 3.0, 1e31, 1e37, 1e38, -1e38, -1.0]))
+            b = f32(base * rng.choice([1, 1.0000001, 0.9999999, 1.000001]))
+        try:
+            a, b, s = f32(a), f32(b), f32(s)
+            case = {'k': 'single', 'a': F.mbf_bytes(a), 'b': F.mbf_bytes(b), 's': F.mbf_bytes(s),
+                    'susp': 1 if rng.random() < 0.25 else 0}
+        except (ValueError, OverflowError):
+            continue
+        n = single_passes(a, b, s, 5000)
+        if (n is None and rng.random() < 0.2) or (n is not None and n <= 100):
+            return case
+    return {'k': 'single', 'a': F.mbf_bytes(1.0), 'b': F.mbf_bytes(3.0), 's': F.mbf_bytes(1.0), 'susp': 0}
